@@ -201,20 +201,30 @@ impl<'a> Emitter<'a> {
                     MatchKind::Matchu => "matchu",
                 };
                 let mut s = format!("{} {} {{ ", name, self.tree_term(t));
-                for (i, a) in arms.iter().enumerate() {
+                // Adjacent arms whose printed bodies are identical are written as alternatives
+                // `p1 | p2 => body` of one arm: by the documented expansion (a disjunct per arm
+                // and alternative) this is the same program, and it lets a body name resolve to a
+                // pattern variable in one alternative and to an outer variable in the other.
+                let mut printed: Vec<(Vec<String>, String)> = vec![];
+                for a in arms.iter() {
+                    let pats: Vec<String> = a.patterns.iter().map(|p| self.match_pattern(p)).collect();
+                    let body = if a.body.is_empty() {
+                        ",".to_string()
+                    } else if a.body.len() == 1 {
+                        format!("{},", self.goal(&a.body[0]))
+                    } else {
+                        format!("{{ {} }},", self.goals(&a.body))
+                    };
+                    match printed.last_mut() {
+                        Some((lp, lb)) if *lb == body && body != "," => lp.extend(pats),
+                        _ => printed.push((pats, body)),
+                    }
+                }
+                for (i, (pats, body)) in printed.iter().enumerate() {
                     if i > 0 {
                         s.push(' ');
                     }
-                    let pats: Vec<String> = a.patterns.iter().map(|p| self.match_pattern(p)).collect();
-                    let _ = write!(s, "{} => ", pats.join(" | "));
-                    if a.body.is_empty() {
-                        s.push(',');
-                    } else if a.body.len() == 1 {
-                        s.push_str(&self.goal(&a.body[0]));
-                        s.push(',');
-                    } else {
-                        let _ = write!(s, "{{ {} }},", self.goals(&a.body));
-                    }
+                    let _ = write!(s, "{} => {}", pats.join(" | "), body);
                 }
                 s.push_str(" }");
                 s
